@@ -35,6 +35,10 @@ def script_cases(rng, tier):
                 else:
                     c.op("hseek", r, "e", rng.choice(offs))
             c.op("hreadtoend", r)
+            # a drained handle is at its end: nothing more to read, relative seeks start there, a second drain is empty
+            c.op("hread", r, rng.choice([1, 3, 4096])); c.op("hseek", r, "c", 0); c.op("hreadtoend", r)
+            c.op("hseek", r, "c", rng.choice([-1, -2, -L])); c.op("hread", r, 2)
+            c.op("hseek", r, "s", rng.choice([0, 1, max(L - 1, 0)])); c.op("hreadtoend", r); c.op("hseek", r, "e", 0)
             c.op("hdrop", r)
             # writer scripts on a create handle; on the in-memory configurations also on an append handle
             w = c.op("createfile", vfx.ps(t, "g"))
@@ -78,7 +82,7 @@ P = histprop.HistProp(
     "C14", [], project=project, extra_gen=script_cases, builds=(False, True),
     rule=("handle scripts: read(n) with n in {0,1,2,7,len,len+5,4096}, seek(Start|Current|End) with offsets from "
           "{0,+-1,len-1,len,len+1,-len,-len-1,i64::MIN,i64::MAX,2^40,u64::MAX} on read handles (file in the upper or in a lower "
-          "layer); write/seek/flush scripts on create handles, also on a create handle over an existing non-empty file (it starts "
+          "layer), each script continued after a read_to_end (the drained handle must sit at its end); write/seek/flush scripts on create handles, also on a create handle over an existing non-empty file (it starts "
           "empty); seek on append handles on the in-memory configurations only; "
           "every handle call's return value and the published bytes are compared, in debug and release builds"),
     assumptions=["write positions stay small (Vec allocation)", "std::io::Cursor semantics as stated in Base/Handles.v"])
